@@ -149,6 +149,13 @@ func ensureBuilt(race bool) string {
 	// a fixed path (builds are serialised by the lock above): the Go build cache can then
 	// reuse every package whose instrumented sources did not change since the last build
 	scratch := filepath.Join(base, fmt.Sprintf("verif-build-%d", os.Getuid()))
+	// (the lock above is per copy of /verif; two copies - a snapshot under test and the
+	// working copy - share this scratch path, so it has a lock of its own)
+	if sl, err := os.OpenFile(scratch+".lock", os.O_CREATE|os.O_RDWR, 0o644); err == nil {
+		defer sl.Close()
+		syscall.Flock(int(sl.Fd()), syscall.LOCK_EX)
+		defer syscall.Flock(int(sl.Fd()), syscall.LOCK_UN)
+	}
 	os.RemoveAll(scratch)
 	if err := os.MkdirAll(scratch, 0o755); err != nil {
 		die(2, "mkdir: %v", err)
